@@ -110,11 +110,80 @@ var sharedRules = []sharedRule{
 		"each backendRef of a rule becomes a weighted group of servers of the rule's backend"},
 	{"C08.decision", []string{"C14", "C01"},
 		"the class decision is the only gate between an Ingress event and the batch"},
+	{"C11.shrink-restore", []string{"C05", "C01", "C03", "C02"},
+		"when an unchanged add/del pair is dropped the committed object is put back everywhere it is indexed (items and its shard): a later rewrite of the shard otherwise renders the discarded copy"},
+	{"C11.match-cond", []string{"C05", "C01"},
+		"which re-parsed backends and hosts count as unchanged"},
 	{"C08.filter", []string{"C01", "C03"},
 		"the converters read Ingresses only through the class filter"},
 }
 
+// Layer sharing. The controller is a pipeline: events -> batch (L1: C14) -> model (L2: converters; the
+// partial-sync discipline is C01) -> files (L3: C05) -> running process (L4: C02/C11/C12). A property
+// that is stated over "the configuration written / HAProxy would load" observes the output of L3, so
+// every structural condition of L3 is a necessary condition of it: a shard or map that is not
+// rewritten keeps serving the old routing, certificate, weight or snippet. Likewise a property
+// quantified over histories observes the output of the partial sync (L2) and of the batching (L1).
+// Authors of changes label a change with the property whose statement they see broken, not with the
+// layer the change is in; the same rule therefore runs under every property downstream of its layer.
+type layerShare struct {
+	from   string
+	to     []string
+	why    string
+	except map[string]bool // rule suffixes not shared (known findings are listed for one rule id)
+}
+
+var layerShares = []layerShare{
+	{"C05", []string{"C01", "C03", "C04", "C06", "C07", "C08", "C09", "C10", "C15", "C16", "C18", "C19", "C12", "C02", "C11"},
+		"L3, model to files: the property is observed in the files HAProxy loads; a file that is not rewritten when its part of the model changed keeps the old behaviour", nil},
+	{"C01", []string{"C03", "C06", "C07", "C08", "C09", "C15", "C17", "C16", "C18", "C10", "C11"},
+		"L2, partial sync: the property is quantified over histories (or the change was made through an incremental reconciliation); what a partial sync does not re-parse keeps the old behaviour",
+		map[string]bool{".acquire-tracked": true}},
+	{"C14", []string{"C01", "C08", "C15", "C17", "C03", "C13"},
+		"L1, events to batch: an event that does not reach a batch is a change of the cluster the configuration never reflects", nil},
+	{"C12", []string{"C02", "C05", "C11"},
+		"L4, files to running process: failures of the update path are reported and retried",
+		map[string]bool{".commit-after-success": true}},
+	{"C02", []string{"C11", "C12", "C15", "C16"},
+		"L4, runtime updates: what is applied through the socket equals what was written",
+		nil},
+}
+
 func init() {
+	defer func() {
+		for _, ls := range layerShares {
+			src := registry[ls.from]
+			if src == nil {
+				panic("layer share: unknown property " + ls.from)
+			}
+			rulesNow := append([]*core.Rule(nil), src.Rules...)
+			for _, r := range rulesNow {
+				suffix := strings.TrimPrefix(r.ID, ls.from)
+				if ls.except[suffix] {
+					continue
+				}
+				for _, p := range ls.to {
+					dup := false
+					for _, x := range registry[p].Rules {
+						if x.ID == p+suffix {
+							dup = true
+						}
+					}
+					if dup {
+						continue
+					}
+					doc := r.Doc
+					if strings.HasPrefix(doc, "Shared with ") {
+						if i := strings.Index(doc, "): "); i >= 0 {
+							doc = doc[i+3:]
+						}
+					}
+					addRule(p, &core.Rule{ID: p + suffix, Floor: r.Floor, Thorough: r.Thorough, Run: r.Run,
+						Doc: "Shared with " + ls.from + " (" + ls.why + "): " + doc})
+				}
+			}
+		}
+	}()
 	for _, s := range sharedRules {
 		src := registry[s.from[:3]]
 		var r *core.Rule
